@@ -29,11 +29,4 @@ cd /verif
 /venv/bin/python -m tools.triage_engine C06 L7/3
 echo CHAINF-ALLTRIAGE-DONE
 /venv/bin/python -m tools.gen_findings
-/venv/bin/python -m tools.triage_engine C16
-echo CHAINF-C16-DONE
-/venv/bin/python -m tools.cover_universes /tmp/cov_scan.json --n 1200 --mode scan --universes B2/53,B3/89,B4/83,I4/97,N1/11,W1/2,S2,S3,U1/7,X2/3,H4/3,P2,R2/3,R3,K7/3,T4/3,Z1,Q2,P3,M3/3,L6,E1/211
-/venv/bin/python -m tools.cover_universes /tmp/cov_fix.json --n 1200 --mode fix --universes B2/53,B3/89,B4/83,I4/97,N1/11,W1/2,S2,S3,U1/7,X2/3,H4/3,P2,R2/3,R3,K7/3,T4/3,Z1,Q2,P3,M3/3,L6,E1/211
-echo CHAINF-COV-DONE
-/venv/bin/python -m tools.distill parse
-/venv/bin/python -m tools.distill scan
 echo CHAINF-DONE
